@@ -148,6 +148,8 @@ def one(ctx, binary, m, scripts, sched, kind):
         replay["finding_key"] = "c15:replay:" + bad.split(":")[0].replace(" ", "_")[:40]
         replay["detail"] = bad
         ctx.violation(bad, replay)
+        if len(ctx.violations) >= 12:
+            return False
     diff = compare(real, model)
     if diff:
         replay["detail"] = diff
